@@ -155,6 +155,21 @@ NotifyFound(s, what, svc, src) ==
 ExpTimer(st, a, key) == [kind |-> "expired", store |-> st, a |-> a, key |-> key]
 Has(s, st, a, key) == <<a, key>> \in s.store[st]
 
+\* Iteration order of the store (a dict of dicts: addresses in the order of their first use, entries of one
+\* address in insertion order, a refreshed entry moves to the end).  It is observable only where the
+\* notifications of one loop over the store are deferred into separate callbacks, which the as-shipped
+\* code does (D2, D11): it is tracked only then; otherwise the outputs of one callback are compared as a bag.
+Track == Sw.DeferWatchReplay \/ Sw.DeferStopAllNotify
+OrdTouch(s, st, a) == IF ~Track \/ a \in Range(s.aord[st]) THEN s ELSE [s EXCEPT !.aord[st] = Append(@, a)]
+OrdAdd(s, st, a, key) ==
+  IF ~Track THEN s
+  ELSE [OrdTouch(s, st, a) EXCEPT !.sord[st] = Append(SelectSeq(@, LAMBDA p : p # <<a, key>>), <<a, key>>)]
+OrdDel(s, st, k) == IF ~Track THEN s ELSE [OrdTouch(s, st, k[1]) EXCEPT !.sord[st] = SelectSeq(@, LAMBDA p : p # k)]
+RECURSIVE IterFrom(_, _, _)
+IterFrom(s, st, as) == IF as = <<>> THEN <<>> ELSE SelectSeq(s.sord[st], LAMBDA p : p[1] = Head(as)) \o IterFrom(s, st, Tail(as))
+Iter(s, st) == IF ~Track THEN SetToSeq(s.store[st]) ELSE IterFrom(s, st, s.aord[st])
+IterSel(s, st, P(_)) == SelectSeq(Iter(s, st), P)
+
 \* callback_new / callback_expired of the store
 TSNew(s, st, a, key) ==
   CASE st = "found" -> NotifyFound(s, "offered", key, a)
@@ -171,18 +186,18 @@ TSRefresh(s, st, a, key, ttl) ==
   LET s1 == IF Has(s, st, a, key)
             THEN (IF Sw.StaleTimerOnRefresh THEN s ELSE CancelTimer(s, ExpTimer(st, a, key)))
             ELSE TSNew(s, st, a, key)
-      s2 == [s1 EXCEPT !.store[st] = @ \cup {<<a, key>>}]
+      s2 == OrdAdd([s1 EXCEPT !.store[st] = @ \cup {<<a, key>>}], st, a, key)
   IN IF ttl = FOREVER /\ ~Sw.ForeverGetsTimer THEN s2 ELSE CallLater(s2, ttl, ExpTimer(st, a, key))
 
 \* TimedStore.stop: immediate notification
 TSStop(s, st, a, key) ==
-  IF ~Has(s, st, a, key) THEN s
-  ELSE TSGone(CancelTimer([s EXCEPT !.store[st] = @ \ {<<a, key>>}], ExpTimer(st, a, key)), st, a, key)
+  IF ~Has(s, st, a, key) THEN OrdTouch(s, st, a)
+  ELSE TSGone(CancelTimer(OrdDel([s EXCEPT !.store[st] = @ \ {<<a, key>>}], st, <<a, key>>), ExpTimer(st, a, key)), st, a, key)
 
 \* TimedStore._expired (timer callback).  As shipped the notification is deferred (D1).
 TSExpired(s, st, a, key) ==
   IF ~Has(s, st, a, key) THEN s
-  ELSE LET s1 == [s EXCEPT !.store[st] = @ \ {<<a, key>>}] IN
+  ELSE LET s1 == OrdDel([s EXCEPT !.store[st] = @ \ {<<a, key>>}], st, <<a, key>>) IN
        IF Sw.DeferExpiryNotify
        THEN CallSoon(s1, [kind |-> "notify_gone", store |-> st, a |-> a, key |-> key])
        ELSE TSGone(s1, st, a, key)
@@ -191,14 +206,14 @@ RECURSIVE StopSeq(_, _, _, _)
 StopSeq(s, st, q, defer) ==
   IF q = <<>> THEN s
   ELSE LET k == Head(q)
-           s1 == CancelTimer([s EXCEPT !.store[st] = @ \ {k}], ExpTimer(st, k[1], k[2]))
+           s1 == CancelTimer(OrdDel([s EXCEPT !.store[st] = @ \ {k}], st, k), ExpTimer(st, k[1], k[2]))
        IN StopSeq(IF defer THEN CallSoon(s1, [kind |-> "notify_gone", store |-> st, a |-> k[1], key |-> k[2]])
                   ELSE TSGone(s1, st, k[1], k[2]), st, Tail(q), defer)
 \* TimedStore.stop_all_for_address / stop_all.  As shipped the notifications are deferred (D2).
-TSStopAddr(s, st, a) == StopSeq(s, st, SetToSeq({k \in s.store[st] : k[1] = a}), Sw.DeferStopAllNotify)
-TSStopAll(s, st) == StopSeq(s, st, SetToSeq(s.store[st]), Sw.DeferStopAllNotify)
+TSStopAddr(s, st, a) == StopSeq(OrdTouch(s, st, a), st, IterSel(s, st, LAMBDA k : k[1] = a), Sw.DeferStopAllNotify)
+TSStopAll(s, st) == LET r == StopSeq(s, st, Iter(s, st), Sw.DeferStopAllNotify) IN IF Track THEN [r EXCEPT !.aord[st] = <<>>] ELSE r
 \* TimedStore.stop_all_matching: immediate, via stop()
-TSStopMatching(s, st, keys) == StopSeq(s, st, SetToSeq({k \in s.store[st] : k[2] \in keys}), FALSE)
+TSStopMatching(s, st, keys) == StopSeq(s, st, IterSel(s, st, LAMBDA k : k[2] \in keys), FALSE)
 
 FoundRefresh(s, src, svc, ttl) == TSRefresh(s, "found", src, svc, ttl)
 FoundStop(s, src, svc) == TSStop(s, "found", src, svc)
@@ -225,10 +240,10 @@ ReplaySeq(s, q, what, l, defer) ==
                     Tail(q), what, l, defer)
 Watch(s, l, f) ==
   LET s1 == [s EXCEPT !.watch[l] = @ \cup {f}, !.wkeys = IF f = "ALL" \/ f \in Range(@) THEN @ ELSE Append(@, f)]   \* dict keys keep insertion order
-  IN ReplaySeq(s1, SetToSeq({k \in s.store["found"] : k[2] \in Match[f]}), "offered", l, Sw.DeferWatchReplay)
+  IN ReplaySeq(s1, IterSel(s, "found", LAMBDA k : k[2] \in Match[f]), "offered", l, Sw.DeferWatchReplay)
 Unwatch(s, l, f) ==
   LET s1 == [s EXCEPT !.watch[l] = @ \ {f}]
-  IN ReplaySeq(s1, SetToSeq({k \in s.store["found"] : k[2] \in Match[f]}), "stopped", l, Sw.DeferWatchReplay)
+  IN ReplaySeq(s1, IterSel(s, "found", LAMBDA k : k[2] \in Match[f]), "stopped", l, Sw.DeferWatchReplay)
 
 -----------------------------------------------------------------------------
 (* ------------- announcer: SendCollector, ServiceInstance, offer task ------ *)
@@ -466,7 +481,9 @@ EgSub(s, ep) ==
             THEN CallSoon([s1 EXCEPT !.eg.cycWait = FALSE, !.tasks[s.eg.cyc].pc = 2], [kind |-> "step", tk |-> s.eg.cyc]) ELSE s1
   IN NewTask(s2, [kind |-> "ninit", ep |-> ep, evs |-> AllEvents, round |-> 0])[1]
 EgUnsub(s, ep) == [s EXCEPT !.eg.subs = @ \ {ep}]
-EgNotify(s, evs) == IF s.eg.subs = {} THEN s ELSE NewTask(s, [kind |-> "nall", evs |-> evs, round |-> 0])[1]
+\* oneshot: the events were passed as an iterator / generator (matters only for the as-shipped deviation D9)
+EgNotify(s, evs, oneshot) ==
+  IF s.eg.subs = {} THEN s ELSE NewTask(s, [kind |-> "nall", evs |-> evs, round |-> 0, oneshot |-> oneshot])[1]
 CycContinue(s, tk) ==     \* top of the loop: wait for clients (no yield when there are some), then sleep
   IF s.eg.subs = {} THEN [s EXCEPT !.eg.cycWait = TRUE, !.tasks[tk].st = "blocked"]
   ELSE Sleep(s, tk, Cfg.egInterval, 1, 0)
@@ -480,7 +497,7 @@ EgStep(s, tk) ==
               ELSE CallSoon([s1 EXCEPT !.eg.gather = Remove(@, t.round)], [kind |-> "step", tk |-> t.round])
     [] t.kind = "nall" ->
          LET eps == EpSeq(s) IN
-         IF Sw.NotifyOnceConsumesIterator /\ eps # <<>>
+         IF Sw.NotifyOnceConsumesIterator /\ t.oneshot /\ eps # <<>>
          THEN TaskDone(SpawnSingles(SpawnSingles(s, <<Head(eps)>>, t.evs, 0), Tail(eps), <<>>, 0), tk)
          ELSE TaskDone(SpawnSingles(s, eps, t.evs, 0), tk)
     [] t.kind = "cyc" ->
@@ -563,7 +580,7 @@ Input(s, e) ==      \* an environment input, delivered as an I/O callback
     [] e.op = "eg_sub"    -> EgSub(s0, e.ep)
     [] e.op = "eg_unsub"  -> EgUnsub(s0, e.ep)
     [] e.op = "eg_set"    -> [s0 EXCEPT !.eg.values[e.ev] = e.val]
-    [] e.op = "eg_notify" -> EgNotify(s0, e.evs)
+    [] e.op = "eg_notify" -> EgNotify(s0, e.evs, "oneshot" \in DOMAIN e /\ e.oneshot)
     \* a bare TimedStore driven through its public methods (C09)
     [] e.op = "ts_refresh"  -> IF "nak" \in DOMAIN e /\ e.nak /\ ~Has(s0, "ts", e.a, e.key) THEN s0      \* callback_new refuses: no trace
                                ELSE TSRefresh(s0, "ts", e.a, e.key, e.ttl)
@@ -599,6 +616,8 @@ Init ==
   s = [ ready |-> <<>>, todo |-> 0, timers |-> {}, outs |-> <<>>, ev |-> 0, idle |-> 0,
         sessIn |-> <<>>, sessOut |-> <<>>, peer |-> <<>>, watch |-> Cfg.watch0, wkeys |-> IF Cfg.wkeys0 # <<>> THEN Cfg.wkeys0 ELSE SetToSeq(UNION Range(Cfg.watch0) \ {"ALL"}),
         store |-> [found |-> {}, ts |-> {}] @@ [i \in DOMAIN Cfg.inst |-> {}],
+        aord |-> [found |-> <<>>, ts |-> <<>>] @@ [i \in DOMAIN Cfg.inst |-> <<>>],      \* iteration order, see Track
+        sord |-> [found |-> <<>>, ts |-> <<>>] @@ [i \in DOMAIN Cfg.inst |-> <<>>],
         started |-> FALSE, ann |-> Cfg.ann0, inst |-> [i \in DOMAIN Cfg.inst |-> [task |-> 0, can |-> FALSE]],
         tasks |-> <<>>, queues |-> <<>>, ch |-> 0, pick |-> <<>>,
         sub |-> [alive |-> FALSE, task |-> 0, list |-> <<>>], disc |-> [task |-> 0],
